@@ -434,6 +434,49 @@ def r206(ctx, R):
                 'the serialiser is handed the allocation_requests of the '
                 'object get_by_requests returned, unchanged', cn, func=h,
                 node=s_.node)
+    # ... and nothing in the handler module rebinds or edits the result's
+    # lists after the limit was applied (dropping "duplicates", re-sorting,
+    # appending): what is serialised is what limit_results selected
+    touched = []
+    MUT = ('remove', 'pop', 'clear', 'sort', 'reverse', 'append', 'extend',
+           'insert', 'discard', 'add', 'update')
+    ATTRS = ('allocation_requests', 'provider_summaries')
+    n_fn = 0
+    for h in prog.funcs:
+        if h.module.name != HC:
+            continue
+        n_fn += 1
+        for x in own_nodes(h.node):
+            tg = []
+            if isinstance(x, ast.Assign):
+                tg = x.targets
+            elif isinstance(x, (ast.AugAssign, ast.AnnAssign)):
+                tg = [x.target]
+            elif isinstance(x, ast.Delete):
+                tg = x.targets
+            for t in tg:
+                for y in ast.walk(t):
+                    if isinstance(y, ast.Attribute) and y.attr in ATTRS \
+                            and not isinstance(y.ctx, ast.Load):
+                        touched.append((h, x))
+                    if isinstance(y, ast.Subscript) and isinstance(
+                            y.value, ast.Attribute) and \
+                            y.value.attr in ATTRS and not isinstance(
+                                y.ctx, ast.Load):
+                        touched.append((h, x))
+            if isinstance(x, ast.Call) and isinstance(
+                    x.func, ast.Attribute) and x.func.attr in MUT and \
+                    isinstance(x.func.value, ast.Attribute) and \
+                    x.func.value.attr in ATTRS:
+                touched.append((h, x))
+    R.ob('R20.6', 'handler:result-lists-untouched', not touched,
+         'the handler module never rebinds or edits allocation_requests / '
+         'provider_summaries of the candidates it was given (the limit has '
+         'already been applied to them)',
+         ['%s line %d: %s' % (h.name, x.lineno, src(x)[:60])
+          for h, x in touched] or '%d functions scanned' % n_fn,
+         func=touched[0][0] if touched else None,
+         node=touched[0][1] if touched else None)
     R.count('R20.6', n, 2)
 
 
